@@ -12,9 +12,11 @@ import (
 	"math/rand"
 	"os"
 	"path/filepath"
+	"runtime"
 	"sort"
 	"sync"
 	"sync/atomic"
+	"time"
 
 	"github.com/pinealctx/neptune/syncx/semap"
 
@@ -28,6 +30,7 @@ type act struct {
 	K     int    `json:"k"`
 	M     string `json:"m"`
 	Ratio int    `json:"ratio"`
+	As    []act  `json:"as"` // op "batch": critical sections queued on the held map mutex
 }
 
 func (a act) rec() tr.E {
@@ -117,6 +120,9 @@ func (wd *world) poll(cancelled int) {
 }
 
 func (wd *world) applicable(a act) bool {
+	if a.Op == "batch" {
+		return len(a.As) >= 2
+	}
 	if a.P < 1 || a.P > len(wd.ps) {
 		return false
 	}
@@ -134,7 +140,9 @@ func (wd *world) applicable(a act) bool {
 	return false
 }
 
-func (wd *world) step(a act) {
+// issue starts one external action without waiting for it; it returns the process whose
+// cancellation is armed at the gate (0 if none).
+func (wd *world) issue(a act) int {
 	p := wd.ps[a.P-1]
 	cancelled := 0
 	switch a.Op {
@@ -181,6 +189,15 @@ func (wd *world) step(a act) {
 		p.rel = nil
 		p.status = "parked" // until its reply shows up
 	}
+	return cancelled
+}
+
+func (wd *world) step(a act) {
+	if a.Op == "batch" {
+		wd.batch(a)
+		return
+	}
+	cancelled := wd.issue(a)
 	if err := wd.x.Settle(); err != nil {
 		tr.Fatal("%v", err)
 	}
@@ -188,6 +205,41 @@ func (wd *world) step(a act) {
 	if a.Op == "cwake" {
 		atomic.StoreInt32(&gateArmed, 0)
 	}
+}
+
+// batch: the harness holds the map mutex, lets the batch's calls queue on it one after the other
+// (each is seen parked in sync.Mutex.Lock before the next is issued), waits long enough for the
+// mutex to hand over in arrival order, and releases: the calls' critical sections - and whatever
+// further critical sections they need - run back to back with nothing in between.  The trace spec
+// accepts any order of the batch's critical sections, so no assumption about the hand-over order
+// is part of the verdict.
+func (wd *world) batch(a act) {
+	unlock := semap.VerifHoldMutex(wd.m, wd.key(a.K))
+	for _, it := range a.As {
+		wd.issue(it)
+		deadline := time.Now().Add(10 * time.Second)
+		for wd.x.WaitState(it.P) != "sync.Mutex.Lock" {
+			if time.Now().After(deadline) {
+				unlock()
+				tr.Fatal("batch item %v never reached the map mutex (state %q)", it, wd.x.WaitState(it.P))
+			}
+			runtime.Gosched()
+		}
+	}
+	time.Sleep(3 * time.Millisecond)
+	// Hand-over in arrival order needs sync.Mutex's starvation mode, which a waiter only enters when
+	// it wakes after > 1 ms and finds the mutex locked again: unlock, re-lock at once (barging ahead of
+	// the woken waiter), unlock.  From then on ownership is handed to the queued calls one by one and
+	// later Lock calls (a second critical section of the same call) queue at the tail.  If the
+	// re-lock loses the race the order is merely different - the trace spec accepts any order.
+	unlock()
+	again := semap.VerifHoldMutex(wd.m, wd.key(a.K))
+	time.Sleep(1500 * time.Microsecond) // the woken waiter finds the mutex locked and switches it to starvation mode
+	again()
+	if err := wd.x.Settle(); err != nil {
+		tr.Fatal("%v", err)
+	}
+	wd.poll(0)
 }
 
 func (wd *world) obs(a act) tr.E {
@@ -200,7 +252,48 @@ func (wd *world) obs(a act) tr.E {
 		present, cur, waiters := semap.VerifKeyState(wd.m, wd.key(k))
 		keys[k-1] = tr.E{"present": present, "cur": cur, "waiters": waiters}
 	}
+	if a.Op == "batch" {
+		as := make([]tr.E, 0, len(a.As))
+		for _, it := range a.As {
+			as = append(as, it.rec())
+		}
+		return tr.E{"ev": "batch", "as": as, "st": st, "keys": keys, "entries": semap.VerifEntries(wd.m)}
+	}
 	return tr.E{"ev": "step", "a": a.rec(), "st": st, "keys": keys, "entries": semap.VerifEntries(wd.m)}
+}
+
+// resolveBatch keeps the items of a batch that are applicable now: all on the batch's key (hence on
+// one mutex), at most one per process; acquire for an idle process, release by a holder of that key,
+// cancellation of a process parked on that key.
+func (wd *world) resolveBatch(a act) act {
+	var out []act
+	seen := map[int]bool{}
+	for _, it := range a.As {
+		if it.P < 1 || it.P > len(wd.ps) || seen[it.P] {
+			continue
+		}
+		p := wd.ps[it.P-1]
+		switch it.Op {
+		case "acq":
+			if p.status == "idle" {
+				it.K = a.K
+				out = append(out, it)
+				seen[it.P] = true
+			}
+		case "rel":
+			if p.status == "hold" && p.k == a.K {
+				out = append(out, it)
+				seen[it.P] = true
+			}
+		case "cancel":
+			if p.status == "parked" && p.k == a.K {
+				out = append(out, it)
+				seen[it.P] = true
+			}
+		}
+	}
+	a.As = out
+	return a
 }
 
 func newMap(variant string, ratio, shards int) semap.SemMapper {
@@ -258,6 +351,9 @@ func runPlan(w *tr.W, src, variant string, ratio, shards, nprocs, nkeys int, key
 	wd := newWorld(variant, ratio, shards, nprocs, nkeys, keyStr)
 	w.Emit(tr.E{"ev": "reset", "ratio": ratio, "variant": variant, "shards": shards, "src": src, "keystr": keyStr})
 	for _, a := range plan {
+		if a.Op == "batch" {
+			a = wd.resolveBatch(a)
+		}
 		if !wd.applicable(a) {
 			continue // the verdict is about what is recorded; skipping only loses coverage
 		}
@@ -267,12 +363,86 @@ func runPlan(w *tr.W, src, variant string, ratio, shards, nprocs, nkeys int, key
 	wd.drain(w)
 }
 
+// batchEnum: systematic exploration of critical-section orders.  From a handful of base situations
+// (holders and waiters on one key) every ordered sequence of 2..3 distinct applicable critical
+// sections - release by a holder, cancellation of a waiter, acquire by a fresh process - is queued on
+// the held map mutex in that order and run back to back.
+func batchEnum(w *tr.W, rng *rand.Rand, variant string, shards int, keyStr bool, sample int) int {
+	type base struct {
+		ratio int
+		pre   []act
+		items []act
+	}
+	bases := []base{
+		{2, []act{{Op: "acq", P: 1, K: 1, M: "w"}, {Op: "acq", P: 2, K: 1, M: "r"}},
+			[]act{{Op: "rel", P: 1}, {Op: "cancel", P: 2}, {Op: "acq", P: 5, K: 1, M: "r"}, {Op: "acq", P: 6, K: 1, M: "w"}}},
+		{2, []act{{Op: "acq", P: 1, K: 1, M: "r"}, {Op: "acq", P: 2, K: 1, M: "w"}},
+			[]act{{Op: "rel", P: 1}, {Op: "cancel", P: 2}, {Op: "acq", P: 5, K: 1, M: "r"}, {Op: "acq", P: 6, K: 1, M: "w"}}},
+		{2, []act{{Op: "acq", P: 1, K: 1, M: "r"}, {Op: "acq", P: 2, K: 1, M: "r"}, {Op: "acq", P: 3, K: 1, M: "w"}, {Op: "acq", P: 4, K: 1, M: "r"}},
+			[]act{{Op: "rel", P: 1}, {Op: "rel", P: 2}, {Op: "cancel", P: 3}, {Op: "cancel", P: 4}, {Op: "acq", P: 5, K: 1, M: "r"}}},
+		{1, []act{{Op: "acq", P: 1, K: 1, M: "w"}, {Op: "acq", P: 2, K: 1, M: "w"}, {Op: "acq", P: 3, K: 1, M: "r"}},
+			[]act{{Op: "rel", P: 1}, {Op: "cancel", P: 2}, {Op: "cancel", P: 3}, {Op: "acq", P: 5, K: 1, M: "w"}}},
+		{3, []act{{Op: "acq", P: 1, K: 1, M: "r"}, {Op: "acq", P: 2, K: 1, M: "w"}, {Op: "acq", P: 3, K: 1, M: "w"}},
+			[]act{{Op: "rel", P: 1}, {Op: "cancel", P: 2}, {Op: "cancel", P: 3}, {Op: "acq", P: 5, K: 1, M: "r"}, {Op: "acq", P: 6, K: 1, M: "w"}}},
+	}
+	var all [][3]int // (base, encoded sequence as indices) - enumerate ordered pairs and triples
+	type job struct {
+		b   int
+		seq []int
+	}
+	var jobs []job
+	for bi, b := range bases {
+		n := len(b.items)
+		for i := 0; i < n; i++ {
+			for j := 0; j < n; j++ {
+				if j == i {
+					continue
+				}
+				jobs = append(jobs, job{bi, []int{i, j}})
+				for k := 0; k < n; k++ {
+					if k != i && k != j {
+						jobs = append(jobs, job{bi, []int{i, j, k}})
+					}
+				}
+			}
+		}
+	}
+	_ = all
+	rng.Shuffle(len(jobs), func(i, j int) { jobs[i], jobs[j] = jobs[j], jobs[i] })
+	if sample > 0 && len(jobs) > sample {
+		jobs = jobs[:sample]
+	}
+	for _, jb := range jobs {
+		b := bases[jb.b]
+		plan := append([]act{}, b.pre...)
+		bt := act{Op: "batch", K: 1}
+		for _, ix := range jb.seq {
+			bt.As = append(bt.As, b.items[ix])
+		}
+		plan = append(plan, bt, act{Op: "acq", P: 6, K: 1, M: "w"}, act{Op: "acq", P: 5, K: 1, M: "r"})
+		runPlan(w, "batch-enum", variant, b.ratio, shards, 6, 1, keyStr, plan)
+	}
+	return len(jobs)
+}
+
 func randPlan(rng *rand.Rand, nprocs, nkeys, n int) []act {
 	// random walk over applicable steps, tracked with a shadow of the *expected* statuses is not
 	// needed: inapplicable steps are skipped by the executor, so just draw generously.
 	var out []act
 	for i := 0; i < n; i++ {
 		p := rng.Intn(nprocs) + 1
+		if rng.Intn(6) == 0 {
+			b := act{Op: "batch", K: rng.Intn(nkeys) + 1}
+			for j := 0; j < 2+rng.Intn(3); j++ {
+				m := "r"
+				if rng.Intn(3) == 0 {
+					m = "w"
+				}
+				b.As = append(b.As, act{Op: []string{"acq", "rel", "cancel", "rel", "cancel"}[rng.Intn(5)], P: rng.Intn(nprocs) + 1, M: m})
+			}
+			out = append(out, b)
+			continue
+		}
 		switch x := rng.Intn(100); {
 		case x < 40:
 			m := "r"
@@ -343,10 +513,11 @@ func runStress(w *tr.W, rng *rand.Rand, variant string, ratio, shards, nthreads,
 					mode = "w"
 				}
 				ctx, cancel := context.WithCancel(context.Background())
-				if r.Intn(5) == 0 {
+				if r.Intn(3) == 0 {
+					spin := r.Intn(400)
 					go func() {
-						for j := 0; j < r.Intn(50); j++ {
-							_ = j
+						for j := 0; j < spin; j++ {
+							runtime.Gosched()
 						}
 						cancel()
 					}()
@@ -389,6 +560,9 @@ func main() {
 	seed := flag.Int64("seed", 1, "seed")
 	nrand := flag.Int("rand", 100, "random schedules")
 	nstress := flag.Int("nstress", 10, "stress runs")
+	nbatch := flag.Int("nbatch", 150, "systematically enumerated critical-section batches to run (0 = all)")
+	sthreads := flag.Int("sthreads", 16, "goroutines of a heavy stress run")
+	sops := flag.Int("sops", 1200, "operations per goroutine of a heavy stress run")
 	flag.Parse()
 	rng := rand.New(rand.NewSource(*seed))
 	semap.VerifGate = gate
@@ -414,11 +588,17 @@ func main() {
 		runPlan(w, "rand", variants[rng.Intn(3)], ratio, shardsL[rng.Intn(4)], np, nk, rng.Intn(2) == 0,
 			randPlan(rng, np, nk, 30+rng.Intn(40)))
 	}
+	nb := batchEnum(w, rng, variants[int(*seed)%3], shardsL[int(*seed)%4], *seed%2 == 0, *nbatch)
 	w.Close()
 	sw := tr.Create(*stress)
 	for i := 0; i < *nstress; i++ {
-		runStress(sw, rng, variants[i%3], []int{1, 2, 3}[rng.Intn(3)], shardsL[rng.Intn(4)], 6, 3, 60)
+		if i%2 == 0 {
+			runStress(sw, rng, variants[i%3], []int{1, 2, 3}[rng.Intn(3)], shardsL[rng.Intn(4)], 6, 3, 60)
+		} else {
+			// heavy contention: many goroutines on one or two keys, every third acquire cancelled
+			runStress(sw, rng, variants[i%3], []int{1, 2, 3}[rng.Intn(3)], shardsL[rng.Intn(4)], *sthreads, 1+rng.Intn(2), *sops)
+		}
 	}
 	sw.Close()
-	fmt.Printf("step_events=%d stress_events=%d\n", w.N(), sw.N())
+	fmt.Printf("step_events=%d stress_events=%d batches_enumerated=%d\n", w.N(), sw.N(), nb)
 }
